@@ -201,7 +201,7 @@ pub fn build_variant_groups<IntT: for<'a> UInt<'a>>(
                                         && i + data_info.k_graph <= vec_visited.len()
                                     {
                                         vec_snps.push(i + data_info.k_graph);
-                                    } else if end_kmers.contains(next) {
+                                    } else if i > 0 && end_kmers.contains(next) {
                                         vec_snps.push(i - 1);
                                     }
                                 }
